@@ -49,13 +49,24 @@ Fixpoint perms {A} (l : list A) : list (list A) :=
   | x :: t => flat_map (inserts x) (perms t)
   end.
 
-(* the lock regions of the early callbacks run right after the Ready region *)
-Fixpoint insert_after_ready (q h : list action) : list action :=
+(* the lock region of an early callback runs either between the moment the
+   constructor returned and the Ready region (execCtx still nil: refused and
+   closed) or after the Ready region; all orders *)
+Fixpoint insert_around_ready (before after h : list action) : list action :=
   match h with
-  | [] => q
-  | Ready :: h' => Ready :: q ++ h'
-  | a :: h' => a :: insert_after_ready q h'
+  | [] => before ++ after
+  | Ready :: h' => before ++ Ready :: after ++ h'
+  | a :: h' => a :: insert_around_ready before after h'
   end.
+
+Fixpoint splits {A} (l : list A) : list (list A * list A) :=
+  match l with
+  | [] => [([], [])]
+  | x :: t => flat_map (fun p => [(x :: fst p, snd p); (fst p, x :: snd p)]) (splits t)
+  end.
+
+Definition schedules (early : list action) : list (list action * list action) :=
+  flat_map (fun p => map (fun q => (fst p, q)) (perms (snd p))) (splits early).
 
 Definition link_agree (c : link_case) : bool :=
   match c with
@@ -63,14 +74,14 @@ Definition link_agree (c : link_case) : bool :=
       let U := univ_fn univ in
       let s0 := set_dirs (if startup then init0 me else init me) (map (fun k => (fst k, snd k, [])) held) in
       existsb (fun perm =>
-        let h' := insert_after_ready perm h in
+        let h' := insert_around_ready (fst perm) (snd perm) h in
         let s := run_from U s0 h' in
         list_list_eqb (trace U s0 h') obs
         && links_eqb (st_links s) links
         && Nat.eqb (length (st_by_peer s)) (length by_peer)
         && forallb (fun e => nat_set_exact (peer_links (fst e) s) (snd e)) by_peer
         && forallb (fun e => nat_set_exact (get_peer_links U s (fst e)) (snd e)) gpl
-        && nat_set_eqb (st_closed s) closed) (perms early)
+        && nat_set_eqb (st_closed s) closed) (schedules early)
   | Stream univ p dl dr sp mr =>
       let U := univ_fn univ in
       Z.eqb (fst (incoming_directive U p)) dl && Z.eqb (snd (incoming_directive U p)) dr
